@@ -432,6 +432,7 @@ class _G:
             "ic": gen_cache(rp, False),
             "decoy": rp.random() < 0.3,
             "probe_before_load": rp.random() < 0.4,
+            "via_state": rp.random() < 0.2,
         }
 
 
